@@ -145,9 +145,39 @@ fn second_cfgs(n: usize) -> Vec<AnyCfg> {
 pub fn run_c15(tier: &str, deadline: Instant, total: &mut Stats, log: &mut Vec<Value>) {
     let nmax = if tier == "thorough" { 3 } else { 2 };
     for n in 0..=nmax {
-        let specs = shapes_upto(n, n, false);
-        let firsts = first_cfgs(n);
-        let seconds = second_cfgs(n);
+        let specs = shapes_upto(n, n, tier == "thorough" && n <= 2);
+        let mut firsts = first_cfgs(n);
+        let mut seconds = second_cfgs(n);
+        if tier == "thorough" {
+            // more histories: plain (non-_with) methods, PollNextN, IgnoreInterruptions, limits
+            for api in Api::all_plain() {
+                let mut c = RunCfg::plain(api, n);
+                if api.is_try() {
+                    c.fail = (0..n).map(|i| i + 1 == n).collect();
+                }
+                firsts.push(AnyCfg::S(c));
+            }
+            for (kind, strat) in [(Kind::ForEach, Strat::NextN(1)), (Kind::Fold, Strat::NextN(1)), (Kind::TryForEach, Strat::Ignore)] {
+                let mut c = RunCfg::plain(Api { kind, mutable: true, with: true }, n);
+                c.strat = strat;
+                c.interrupt = true;
+                c.include = false;
+                c.rev = true;
+                firsts.push(AnyCfg::S(c));
+            }
+            let mut c = RunCfg::plain(Api { kind: Kind::ForEach, mutable: false, with: true }, n);
+            c.limit = Some(1);
+            seconds.push(AnyCfg::S(c));
+            let mut c = RunCfg::plain(Api { kind: Kind::TryForEach, mutable: false, with: true }, n);
+            c.rev = true;
+            c.strat = Strat::Finish;
+            c.interrupt = true;
+            seconds.push(AnyCfg::S(c));
+            let mut s2 = CCfg::plain(SApi::StreamWithInterruptible);
+            s2.strat = Strat::NextN(1);
+            s2.interrupt = true;
+            seconds.push(AnyCfg::C(s2));
+        }
         let mut items: Vec<(usize, usize, usize)> = vec![];
         for s in 0..specs.len() {
             for a in 0..firsts.len() {
